@@ -953,6 +953,21 @@ def f_gather_scatter(c):
 
 
 @family
+def f_broadcast(c):
+    """Vector(scalar) and Vector::operator=(scalar): every lane holds the scalar (the lane semantics every property relies on)"""
+    if c.kind == 'ctor' and c.OT and c.OT.kind == 'vec' and len(c.P) == 1 and c.PT[0].kind == 'scalar' and c.PT[0].elem == c.OT.elem and not c.P[0]['ref']:
+        t = c.OT
+        ens = [('Vector(scalar) lane %d' % i, '%s == %s' % (t.lane(RV, i), bits_of(t.cscalar, c.a(0)))) for i in range(t.W)]
+        return Contract('vec_from_scalar', ['C08'], ensures=ens, cxx='%s({0})' % t.cxx())
+    if c.kind == 'method' and c.name == 'operator=' and c.OT and c.OT.kind == 'vec' and len(c.P) == 1 and c.PT[0].kind == 'scalar' and c.PT[0].elem == c.OT.elem and not c.P[0]['ref']:
+        t = c.OT
+        ens = [('Vector = scalar lane %d' % i, '%s == %s' % (t.lane('(*this)', i), bits_of(t.cscalar, c.a(0)))) for i in range(t.W)]
+        ens.append(('returns *this', '%s == this' % RV))
+        return Contract('vec_assign_scalar', ['C08'], ensures=ens, assigns=['*this'], cxx='({this} = {0})')
+    return None
+
+
+@family
 def f_array_ctor(c):
     if c.kind == 'ctor' and c.OT and c.OT.kind == 'vec' and len(c.P) == 1:
         ct = c.P[0]['ctype'].rstrip('*')
@@ -1219,6 +1234,12 @@ def f_denominator(c):
                 st = T(ELEM[el][2], S)
                 ens = [('value() reports the divisor', '%s == %s' % (st.lane('(%s).m.d' % RV, 0), t.lane(c.a(0), 0)))]
             k = Contract('denom_ctor', ['C14'] if not vec else ['C15'], requires=req, ensures=ens, cxx='%s({0})' % ('avel::Denominator<%s>' % t.cxx()), flags=['div'])
+            if fn['owner'] == 'Denom_u32':
+                # code-level contract (modulo-lemma L3): the constructor stores the Granlund-Montgomery parameters of d
+                d0 = c.a(0)
+                k.ensures += [('stores the round-up reciprocal m\' of d', '(%s).m == spec_gm_magic_u32(%s, spec_ceil_log2(%s, 32))' % (RV, d0, d0)),
+                              ('stores the post-shift l - 1', '(%s).sh2 == (uint32_t)(spec_ceil_log2(%s, 32) - 1u)' % (RV, d0))]
+                k.defines = ['AVM_DIV_UF']
             return k
         return None
     # ---- div / operator/ / operator% (friends) and value()
@@ -1256,7 +1277,7 @@ def f_denominator(c):
         if not ctor:
             return None
         k.extra_roots = [ctor]
-        k.denom = {'t': t, 'vec': vec, 'ctor': ctor, 'dct': c.P[1]['ctype'], 'nct': t.ct}
+        k.denom = {'t': t, 'vec': vec, 'ctor': ctor, 'dct': c.P[1]['ctype'], 'nct': t.ct, 'pn': (c.P[0]['name'], c.P[1]['name'])}
         if t.bits > 8 or t.W > 1:
             k.partial = 'one obligation per divisor d of the lattice {%s} (mod 2^%d)%s; all numerators' % (
                 ', '.join(str(v) for v in denom_lattice(t)), t.bits, ', every lane dividing by d, plus one obligation with a different lattice divisor in every lane' if vec else '')
@@ -1355,6 +1376,24 @@ def denom_variants(k, tier):
         c.part = label
         return c
 
+    if d['dct'] in ('Denom_u32', 'Denom_u64') and k.family == 'denom_div':
+        # code-level contract (modulo-lemma L3): for EVERY field value div evaluates the Granlund-Montgomery expression
+        g = copy.copy(k)
+        b = t.bits
+        pn, pd = d['pn']
+        g.requires = ['((%s).d == 1 || (%s).sh2 < %d)' % (pd, pd, b)]
+        g.ensures = [('div evaluates the Granlund-Montgomery expression', 'spec_gm_div_u%d_ok((%s).quot, (%s).rem, %s, (%s).m, (%s).sh2, (%s).d)' % (b, RV, RV, pn, pd, pd, pd))]
+        g.harness = {'pre': ['%s a0;' % d['nct'], '%s a1;' % d['dct']], 'args': ['a0', 'a1']}
+        g.extra_roots = []
+        g.part = 'GM expression, all n, all field values'
+        g.partial = None
+        g.gm = True
+        g.defines = ['AVM_MUL_UF']
+        out.append(g)
+    if t.bits >= 32:
+        # value obligations (quotient against the reference division) are beyond the SAT back ends at 32/64 bits even for
+        # a constant divisor (measured); only the code-level contract above is discharged for these types
+        return out
     if t.bits <= 8 and t.W == 1:
         # all divisors: symbolic d != 0
         c = mk('all d', ['d_in'])
